@@ -318,7 +318,11 @@ fn gen_case(rng: &mut Rng, len: usize, mode: u8, lines: &mut Vec<String>, out: &
         let present = |rng: &mut Rng| -> u64 {
             if loaded.is_empty() || (mode == 2 && rng.chance(1, 6)) { rng.range(1, 8) } else { *rng.pick(&loaded) }
         };
-        let w = rng.below(100);
+        let mut w = rng.below(100);
+        // operations that need a present account are preceded by a load unless the case is malformed
+        if loaded.is_empty() && mode != 2 && matches!(w, 36..=62 | 73..=83) {
+            w = 0;
+        }
         let l = match w {
             0..=9 => format!("j load {:x}", any(rng)),
             10..=13 => format!("j loadcode {:x}", any(rng)),
